@@ -16,8 +16,9 @@ SETTERS = {"setZero", "setConstant", "setOnes", "fill", "setIdentity"}
 SIZEQ = {"size", "rows", "cols", "empty"}
 
 
-def norm_size(s):
-    return s.replace("num_segments_", "num_segments").replace("this->", "").replace(" ", "").strip("()")
+def norm_size(s, count_member="num_segments_"):
+    # the optimizer's segment count and the parameter of Workspace::resize it is handed to denote the same size
+    return s.replace("this->", "").replace("this.", "").replace(count_member, "<N>").replace("num_segments", "<N>").replace(" ", "").strip("()")
 
 
 class WsDef:
@@ -37,6 +38,7 @@ class WsDef:
         self.alias = {}                        # id of a by-reference parameter / local reference -> workspace field it denotes
         self.carrying = set()                  # fields that receive results through out-parameters / accumulation
         self.pending = {}                      # field -> (node, fn) of the latest write nothing has read yet
+        self.count_member = "num_segments_"    # the optimizer's segment-count member (callers set the discovered name)
 
     # ---- helpers ---------------------------------------------------------------------------------------
     def field_of(self, n):
@@ -385,7 +387,7 @@ class WsDef:
         if not (isinstance(c, dict) and c.get("k") == "bin"):
             return False
         l, r, op = pp(c["l"]), pp(c["r"]), c.get("op")
-        cnt = ("this.num_segments_", "num_segments_")
+        cnt = ("this." + self.count_member, self.count_member)
         return ((l in cnt and ((op == ">" and r == "0") or (op == ">=" and r == "1") or (op == "!=" and r == "0")))
                 or (r in cnt and ((op == "<" and l == "0") or (op == "<=" and l == "1") or (op == "!=" and l == "0"))))
 
@@ -418,7 +420,7 @@ class WsDef:
             fld = self.field_of(base)
             if not (fld is not None and partial and self.is_direct(base) and len(iargs) == 1 and iargs[0].get("k") == "var" and iargs[0].get("id") == var):
                 continue
-            if not (self.state.get(fld) == "P" and "0" in self.idx.get(fld, set()) and norm_size(pp(cond["r"])) == norm_size(self.sizes.get(fld, "?"))):
+            if not (self.state.get(fld) == "P" and "0" in self.idx.get(fld, set()) and norm_size(pp(cond["r"]), self.count_member) == norm_size(self.sizes.get(fld, "?"), self.count_member)):
                 continue
             ok = True
             for x in walk(r):
@@ -471,7 +473,7 @@ class WsDef:
                     base, partial, idx, iargs = self.strip_elem(l)
                     fld = self.field_of(base)
                     if fld is not None and partial and self.is_direct(base) and len(iargs) == 1 and iargs[0].get("k") == "var" and iargs[0].get("id") == var \
-                            and fld not in seen and fld not in self.fields_in(r) and norm_size(bound) == norm_size(self.sizes.get(fld, "?")):
+                            and fld not in seen and fld not in self.fields_in(r) and norm_size(bound, self.count_member) == norm_size(self.sizes.get(fld, "?"), self.count_member):
                         out.append((fld, st))
             seen |= self.fields_in(st)
         return out
